@@ -325,7 +325,7 @@ func checkC07(w *World, r *Report) {
 	r.floor("C07.block", "blocking operations reachable from evaluation", nb, 4)
 
 	// derive
-	nd := ctxDeriveRule(w, r, e, m, "C07.derive")
+	nd := ctxDeriveRule(w, r, e, m, "C07.derive", nil)
 	r.floor("C07.derive", "contexts handed to evaluating calls", nd, 15)
 	// the binder puts the adapter's ctx in slot 0
 	if ac := w.Fn("lib/call", "_args_ctx"); ac != nil {
@@ -487,7 +487,7 @@ func hasNoCtxParam(fn *ssa.Function) bool {
 }
 
 // ctxDeriveRule: every context handed to an evaluating call is derived from the caller's own context.
-func ctxDeriveRule(w *World, r *Report, e *Engine, m *evalModel, rule string) int {
+func ctxDeriveRule(w *World, r *Report, e *Engine, m *evalModel, rule string, only func(*ssa.Function) bool) int {
 	registered := map[*ssa.Function]bool{}
 	for _, f := range w.registeredFuncs() {
 		registered[f] = true
@@ -495,7 +495,7 @@ func ctxDeriveRule(w *World, r *Report, e *Engine, m *evalModel, rule string) in
 	nd := 0
 	extSig := w.ByPath[modPath+"/types"].Types.Scope().Lookup("ExternalCall").Type().Underlying().(*types.Signature)
 	for _, fn := range w.Funcs {
-		if isTestFunc(w, fn) || !libraryPkg(fnPkgPath(fn)) {
+		if isTestFunc(w, fn) || !libraryPkg(fnPkgPath(fn)) || (only != nil && !only(fn)) {
 			continue
 		}
 		for _, b := range fn.Blocks {
@@ -527,9 +527,28 @@ func ctxDeriveRule(w *World, r *Report, e *Engine, m *evalModel, rule string) in
 				}
 				// only functions that have a context of their own can derive one
 				nd++
+				ctxRoots = nil
 				_, ok = ctxDerivation(e, ctxArg, map[ssa.Value]bool{})
 				construct := "context passed to " + what
+				// a function with a context parameter of its own that hands on one captured from an enclosing
+				// function instead: whoever calls it (with a cancellable child, say) has no say over what runs
+				var foreign *ssa.Parameter
+				ownCtx := false
+				for _, p := range fn.Params {
+					ownCtx = ownCtx || isContext(p.Type())
+				}
+				if ok && ownCtx {
+					for _, root := range ctxRoots {
+						for p := fn.Parent(); p != nil; p = p.Parent() {
+							if root.Parent() == p {
+								foreign = root
+							}
+						}
+					}
+				}
 				switch {
+				case foreign != nil:
+					r.bad(rule, fn, construct, in.Pos(), "the function is given a context of its own but hands on the context "+foreign.Name()+" captured from "+w.fnName(foreign.Parent())+": cancelling the context it is called with (a future's body context, a try's time share) does not reach this evaluation")
 				case ok:
 					r.ok(rule, fn, construct, in.Pos(), "the function's own context or a context.With* child of it")
 				case fnPkgPath(fn) == modPath+"/reader":
